@@ -27,7 +27,6 @@ void ldb_mutex_lock(ldb_mutex_t *m) { __CPROVER_assert(m == &g_db->mutex && !g_h
 void ldb_mutex_unlock(ldb_mutex_t *m) { __CPROVER_assert(m == &g_db->mutex && g_held, "unlock: DB mutex held"); g_held = 0; g_unlocks++; }
 
 /* ------------------------------------------------------------ env models */
-static ldb_filelock_t *g_lock_token;
 void ldb_log(ldb_logger_t *logger, const char *fmt, ...) { }
 const char *ldb_strerror(int code) { return "e"; }
 int ldb_system_error(void) { int e = nondet_int(); __CPROVER_assume(e != LDB_OK); return e; }
@@ -43,7 +42,7 @@ int ldb_lock_file(const char *filename, ldb_filelock_t **lock) {
                    "the LOCK is taken before the database is inspected, created or recovered");
   KG.lock_calls++; RG.lock_rc = rc;
   if (rc != LDB_OK) return rc;
-  KG.locked = 1; *lock = g_lock_token;
+  KG.locked = 1; *lock = g_lock_obj_p;
   return LDB_OK;
 }
 int ldb_file_exists(const char *filename) {
@@ -223,7 +222,7 @@ void h_newdb(void) {
 
 static void recover_inputs(ldb_t *db) {
   int i;
-  g_lock_token = malloc(1); __CPROVER_assume(g_lock_token != NULL);
+  g_lock_obj_p = malloc(1); __CPROVER_assume(g_lock_obj_p != NULL);
   g_rlogfile = malloc(1); g_rlog = malloc(1); g_rmem = malloc(1);
   __CPROVER_assume(g_rlogfile != NULL && g_rlog != NULL && g_rmem != NULL);
   g_name_base = malloc(LIFE_MAXDIR + 1); __CPROVER_assume(g_name_base != NULL);
